@@ -178,3 +178,19 @@ Theorem C16_no_restart_left_premises_satisfiable :
   exists e, w_exp (run F18.f18_cfg F18.f18_acts) = Some e /\ e_max e = Some 2.
 Proof. exact WorldRest.restart_taken_premises_hold. Qed.
 Print Assumptions C16_no_restart_left_premises_satisfiable.
+
+(* "... while the volume claim is kept", over runs: no controller ever has a deletion of the volume claim pending, so once the
+   claim exists it exists in every later state of every history without teardown -- through completion, cleanup of Deployment and
+   Service, restarts and every interleaving and fault. *)
+From KV Require Proofs.WorldPvc.
+Theorem C16_pvc_kept_over_runs : forall c acts1 acts2,
+  valid_cfg c -> no_teardown (acts1 ++ acts2) ->
+  i_pvc (w_infra (run c acts1)) = true -> i_pvc (w_infra (run c (acts1 ++ acts2))) = true.
+Proof. exact WorldPvc.pvc_kept_over_runs. Qed.
+Print Assumptions C16_pvc_kept_over_runs.
+
+Theorem C16_pvc_kept_premises_satisfiable :
+  valid_cfg F18.f18_cfg /\ no_teardown (firstn 80 F18.f18_acts ++ skipn 80 F18.f18_acts) /\ c_resume F18.f18_cfg = FromVolume /\
+  i_pvc (w_infra (run F18.f18_cfg (firstn 80 F18.f18_acts))) = true /\ length (skipn 80 F18.f18_acts) = 671%nat.
+Proof. exact WorldPvc.pvc_premises_hold. Qed.
+Print Assumptions C16_pvc_kept_premises_satisfiable.
